@@ -493,6 +493,7 @@ impl BsDriver {
                 Ok(Err(AddShredError::Duplicate)) => rets.push(json!("dup")),
                 Ok(Err(AddShredError::Equivocation)) => rets.push(json!("equiv")),
                 Ok(Err(AddShredError::InvalidShred)) => rets.push(json!("invalid")),
+                Ok(Err(AddShredError::WrongKind)) => rets.push(json!("wrongkind")),
                 Err(p) => {
                     panic = panic_msg(p);
                     rets.push(json!(format!("panic:{panic}")));
